@@ -338,9 +338,32 @@ impl<'t, 'a> Gen<'t, 'a> {
             11 => self.member_assign(d1),
             12 => {
                 let t = self.expr(d1);
+                self.tag("conditional");
+                if self.t.chance(110) {
+                    // else-if chain `c1 ? A : c2 ? B : C` (or nested in the first branch) with instrumented branches,
+                    // typically used as an operand: temporaries of the branches and of the enclosing operation interleave
+                    self.tag("conditional-chain");
+                    let a = self.method_call(d1.min(2));
+                    let t2 = self.leaf();
+                    let b = if self.t.flag() { self.plus(d1.min(1)) } else { self.leaf() };
+                    let c = if self.t.flag() { self.method_call(d1.min(1)) } else { self.leaf() };
+                    let inner = E::Cond(t2.bx(), b.bx(), c.bx());
+                    let chain = if self.t.chance(190) { E::Cond(t.bx(), a.bx(), inner.bx()) } else { E::Cond(t.bx(), inner.bx(), a.bx()) };
+                    return if self.t.flag() {
+                        let l = self.method_call(d1.min(1));
+                        let sum = E::Bin("+", l.bx(), E::Paren(chain.bx()).bx());
+                        if !self.o.plus_enabled && self.o.avoid.plain_sum_operand {
+                            self.redirect("plain_sum_operand");
+                            E::Paren(sum.bx())
+                        } else {
+                            sum
+                        }
+                    } else {
+                        chain
+                    };
+                }
                 let c = self.expr(d1);
                 let a = self.expr(d1);
-                self.tag("conditional");
                 E::Cond(t.bx(), c.bx(), a.bx())
             }
             13 => {
